@@ -43,6 +43,9 @@ type Harness struct {
 
 // ReplayFile is the on-disk form of a minimised failing execution.
 type ReplayFile struct {
+	// Crash marks a seed whose run killed the worker process (a panic in a
+	// goroutine of the code under test): it is replayed by running that seed.
+	Crash    bool            `json:"crash,omitempty"`
 	Property string          `json:"property"`
 	Class    string          `json:"class"`
 	Msg      string          `json:"msg"`
@@ -240,6 +243,7 @@ func runMode(t *testing.T, h *Harness, determinism bool) {
 			continue
 		}
 		watchdogSeed, watchdogStart = seed, time.Now()
+		os.WriteFile(out+".cur", []byte(strconv.FormatUint(seed, 10)), 0o644)
 		res := execOnce(t, h, sc, sim.Options{Seed: sim.Mix(seed, 2)})
 		watchdogStart = time.Time{}
 		sum.Runs++
@@ -375,6 +379,27 @@ func replayMode(t *testing.T, h *Harness) {
 	var rf ReplayFile
 	if err := json.Unmarshal(b, &rf); err != nil {
 		t.Fatalf("parse replay: %v", err)
+	}
+	if rf.Crash {
+		// re-run the seed exactly as the batch did; the expected outcome is that
+		// this process dies with the same panic
+		tier := os.Getenv("VERIF_TIER")
+		if tier == "" {
+			tier = "quick"
+		}
+		sc0 := h.Gen(sim.NewRand(sim.Mix(rf.Seed, 1)), tier)
+		sc, _, _ := roundTrip(h, sc0)
+		startWatchdog(path, 60*time.Second)
+		watchdogStart = time.Now()
+		res := execOnce(t, h, sc, sim.Options{Seed: sim.Mix(rf.Seed, 2)})
+		watchdogStart = time.Time{}
+		out := map[string]interface{}{"property": h.ID, "expected_class": rf.Class, "reproduced": false, "outcome": res.Outcome, "note": "the process survived the run"}
+		jb, _ := json.MarshalIndent(out, "", " ")
+		fmt.Printf("REPLAY-RESULT %s\n", string(jb))
+		if o := os.Getenv("VERIF_OUT"); o != "" {
+			os.WriteFile(o, jb, 0o644)
+		}
+		return
 	}
 	sc := h.New()
 	if err := json.Unmarshal(rf.Scenario, sc); err != nil {
